@@ -4,4 +4,4 @@ Extraction Language OCaml.
 Extraction "model.ml"
   xb_zadd xb_zmul xb_zdiv xb_zmod xb_zopp xb_zltb xb_nadd xb_nmul xb_ndiv xb_nmod xb_z_of_n xb_n_of_z xb_n_of_nat xb_nat_of_n xb_keep
   marshal_session marshal_data unmarshal_session unmarshal_data
-  is_session is_data is_ack is_data_ack is_low_entropy nonce_inc.
+  is_session is_data is_ack is_data_ack is_low_entropy nonce_inc sess_input sess_run.
